@@ -1525,6 +1525,52 @@ def c18(tier):
 CHECKS['C18'] = c18
 
 
+
+# ----------------------------------------------------------------------------------------- drift
+def drift(tier='quick'):
+    """Not a property check: validates traces under Prop = DRIFT, i.e. the implementation-shaped part of the specification
+    (fields no property owns).  Mismatches are listed as model drift; always exits 0."""
+    rep = Report('DRIFT', tier)
+    rng = random.Random(vlib.seed())
+    groups = []
+    rec = recorded_lines('squitters.txt', 20000 if tier == 'quick' else 100000)
+    for k in range(16 if tier == 'quick' else 64):
+        opts = OPTSETS[k % 4]
+        st = rng.randrange(0, len(rec) - 800)
+        groups.append([reset(opts)] + [run1(l) for l in rec[st:st + 600]])
+    for k in range(16):
+        acs = [0x4e0000 + rng.getrandbits(10) for _ in range(3)]
+        pool = []
+        for a in acs:
+            pool += other_format_frames(a, rng) + valid_value_frames(a, rng)
+            for st_ in (3, 4):
+                pool.append(df17(5, a, me_velocity(st_, 1, rng.getrandbits(10), 0, rng.getrandbits(10), 1, rng.getrandbits(9), dif=rng.getrandbits(7), sdif=rng.getrandbits(1))))
+            pool.append(df17(5, a, me_surface(rng.randint(5, 8), rng.getrandbits(7), rng.getrandbits(1), rng.getrandbits(7), rng.getrandbits(1), rng.getrandbits(17), rng.getrandbits(17))))
+            pool.append(df17(5, a, me_velocity(1, 0, 100, 0, 100, 0, 5, dif=rng.randint(1, 127), sdif=1)))
+        g = [reset(OPTSETS[k % 4])]
+        for _ in range(300):
+            g.append(run1(rng.choice(pool)))
+        groups.append(g)
+    shards = chunk(groups, 4000)
+    binary = vlib.build_harness('release')
+    traces = vlib.exec_shards(binary, shards, 'drift-')
+    res = vlib.validate(traces, 'DRIFT')
+    notes = {}
+    n = 0
+    for r in res:
+        n += r['done']
+        for v in r['viol']:
+            notes.setdefault((v['pred'], v['tag']), []).append(v)
+    out = {'events': n, 'drift': []}
+    for (pred, tag), vs in sorted(notes.items()):
+        e = [x for x in vlib.read_ndjson(vs[0]['trace']) if x['i'] == vs[0]['i']][0]
+        out['drift'].append({'predicate': pred, 'path': tag, 'count': len(vs), 'example_line': bytes(e['lines'][0]).decode('latin1')})
+        print('DRIFT predicate=%s path=%s count=%d example=%s' % (pred, tag, len(vs), bytes(e['lines'][0]).decode('latin1')))
+    json.dump(out, open(os.path.join(vlib.ROOT, 'drift_report.json'), 'w'), indent=1)
+    print('drift check: %d events, %d kinds of drift (see drift_report.json)' % (n, len(out['drift'])))
+    return 0
+
+
 # ---------------------------------------------------------------------------------------- replay
 def replay(prop, path):
     """re-executes the scenario of a replay file against the current tree and validates it again"""
